@@ -41,7 +41,7 @@ def aol(**kw):
 
 
 def did(**kw):
-    d = dict(Accts=S(['a1', 'a2']), Dids=S(['d1', 'd2']), ViewDids=S(['d1', 'd2']), Keys=S(['k1', 'k2', 'k3']), VmNames=S(['v1', 'v2']),
+    d = dict(Accts=S(['a1', 'a2']), Dids=S(['d1', 'dc']), ViewDids=S(['d1', 'dc']), Keys=S(['k1', 'k2', 'k3']), VmNames=S(['v1', 'v2']),
              DocNames=S(['A1', 'A2', 'C1', 'D2']), Kinds=DID_KINDS)
     d.update(kw)
     return mk(**d)
@@ -106,10 +106,12 @@ def preset(pid, tier):
         props = {'C03': ['P_C03'], 'C04': ['P_C04'], 'C05': ['P_C05', 'P_C08', 'P_C10'], 'C11': []}[pid]
         invs = {'C03': [], 'C04': ['I_C04'], 'C05': ['I_C05'], 'C11': ['I_C11']}[pid]
         docs = S(['A1', 'A2', 'C1', 'D2']) if q else S(['A1', 'A2', 'B12', 'C1', 'D2', 'E1'])
-        mcc = did(DocNames=docs, MaxDeliver=3 if q else 4, MaxHeight=3 if pid == 'C05' else 2,
+        mcc = did(DocNames=docs, MaxDeliver=4 if q else 5, MaxHeight=3 if pid == 'C05' else 2,
                   NextKinds=ALL_NEXT if pid == 'C05' else S(['BeginBlock']))
-        simc = did(Accts=S(['a1', 'a2', 'a3']), DocNames=S(['A1', 'A2', 'B12', 'C1', 'D2', 'E1', 'N0', 'EMP']), MaxDeliver=30, MaxHeight=6, NextKinds=ALL_NEXT, FailKeep=25)
-        return dict(mc=mcc, props=props, invs=invs, sims=[sim(simc, 150 if q else 3000, 35)], mc_timeout=2400)
+        simc = did(Accts=S(['a1', 'a2', 'a3']), Dids=S(['d1', 'd2', 'dc']), ViewDids=S(['d1', 'd2', 'dc']),
+                   DocNames=S(['A1', 'A2', 'B12', 'C1', 'D2', 'E1', 'N0', 'EMP']), MaxDeliver=30, MaxHeight=6, NextKinds=ALL_NEXT, FailKeep=25)
+        tourc = did(DocNames=S(['A1', 'A2', 'C1']) if q else S(['A1', 'A2', 'C1', 'D2']), Keys=S(['k1', 'k2']) if q else S(['k1', 'k2', 'k3']), MaxDeliver=2 if q else 3, MaxHeight=2)
+        return dict(mc=mcc, props=props, invs=invs, tour=tourc, sims=[sim(simc, 150 if q else 3000, 50)], mc_timeout=2400)
     if pid in ('C06', 'C12'):
         props = {'C06': ['P_C06'], 'C12': ['P_C12']}[pid]
         invs = {'C06': [], 'C12': ['I_C12']}[pid]
